@@ -29,6 +29,22 @@ Proof.
   exact (flow_safe _ _ _ _ Hrun Hf).
 Qed.
 
+(* C18's "no density result file is produced", for every execution of the main block: if preprocessing - the import and
+   validation of the two annotations, the chromosome check - fails, then no density job (the only writer of result files) starts,
+   neither before nor after, and the block does not end normally: the run ends with the exception, i.e. a non-zero exit status.
+   (The main block calls preprocessing at most once - calls_bound_sound - so a failed call is never followed by a successful one.) *)
+Theorem c18_code_refused_pair_no_density_job : forall tr o, run None gen_main tr o -> In (SPre, false) tr ->
+  (forall ok, ~ In (SMerge, ok) tr) /\ ~ ended o.
+Proof.
+  intros tr o Hrun Hfail. split.
+  - assert (Hb : calls_bound SPre gen_main = Some 1) by (vm_compute; reflexivity).
+    pose proof (calls_bound_sound SPre _ _ _ _ Hrun 1 Hb) as Hc.
+    apply (no_merge_without_pre tr false (c18_code_results_after_validation tr o Hrun)).
+    intro Hok. pose proof (count_two SPre tr Hfail Hok). apply (Nat.lt_irrefl 1). apply (Nat.lt_le_trans _ 2); [constructor | eapply Nat.le_trans; eassumption].
+  - intro He. pose proof (c17_code_failure_is_reported gen_main (or_introl eq_refl) None tr o Hrun He) as Hall.
+    unfold all_ok in Hall. rewrite Forall_forall in Hall. specialize (Hall _ Hfail). discriminate Hall.
+Qed.
+
 (* not vacuous: the main block contains the density job, and on its normal path both validating stages have certainly completed *)
 Example c17_code_main_runs_the_stages :
   mentions_merge gen_main = true /\ flow gen_main (false, false) = Some (true, true) /\
@@ -41,3 +57,4 @@ Proof. vm_compute. repeat split. Qed.
 Print Assumptions c17_code_nothing_swallowed.
 Print Assumptions c17_code_failure_is_reported.
 Print Assumptions c18_code_results_after_validation.
+Print Assumptions c18_code_refused_pair_no_density_job.
